@@ -118,7 +118,10 @@ def correspond(ctx):
     o_tok = Oracle(ctx, "codes-as-typed")
     for tag, inp, ok, obs, exp in token_form_cases(rng):
         o_tok.check(tag, ok, inp, obs, exp)
-    return merge(s_small, s_rand, s_norm, s_hist, o_tok, exhaustive=False)
+    o_live = Oracle(ctx, "time-forms-and-live-objects")
+    for tag, inp, ok, obs, exp in live_object_cases(rng):
+        o_live.check(tag, ok, inp, obs, exp)
+    return merge(s_small, s_rand, s_norm, s_hist, o_tok, o_live, exhaustive=False)
 
 
 # ------------------------------------------------------------------------------------------
@@ -176,9 +179,10 @@ def search(ctx, broken, seeds):
             last = m.counter
         if any(b <= a for a, b in zip(acc, acc[1:])):
             return {"input": {"op": "history", "table": table, "period": p, "attempts": hist}, "observed": acc, "expected": "strictly increasing accepted counters"}
-    for tag, inp, ok, obs, exp in token_form_cases(rng):
-        if not ok:
-            return {"input": inp, "observed": obs, "expected": exp, "check": tag}
+    for gen in (token_form_cases(rng), live_object_cases(rng)):
+        for tag, inp, ok, obs, exp in gen:
+            if not ok:
+                return {"input": inp, "observed": obs, "expected": exp, "check": tag}
     return None
 
 
@@ -212,6 +216,53 @@ def token_form_cases(rng):
             except Exception as e:  # noqa: BLE001
                 got = (errname(e), None)
             yield ("decorated-code-is-the-same-code", inp, got == ("accepted", 33), got, ("accepted", 33))
+
+
+def live_object_cases(rng):
+    """match() on a live object: the time may be given as a number or a date-time in any zone (same instant, same answer), and after the
+    key of the object was replaced the codes of the NEW key are the valid ones; yields (tag, input, ok, observed, expected)"""
+    import datetime
+
+    from passlib import exc
+    from passlib.totp import TOTP
+
+    def outcome(t, tok, tm, **kw):
+        try:
+            return ("ok", t.match(tok, tm, **kw).counter)
+        except exc.UsedTokenError:
+            return ("used", None)
+        except exc.InvalidTokenError:
+            return ("invalid", None)
+        except Exception as e:  # noqa: BLE001
+            return (errname(e), None)
+
+    for _ in range(40):
+        key = rng.randbytes(20)
+        t = TOTP(key=key, format="raw", period=30)
+        ts = rng.randrange(10 ** 9, 2 * 10 ** 9)
+        tok = t.generate(ts).token
+        c = ts // 30
+        for off_min in (0, 60, -300, 330, 765, -720, rng.randrange(-720, 721)):
+            tz = datetime.timezone(datetime.timedelta(minutes=off_min))
+            forms = {"int": ts, "float": ts + 0.25, "aware": datetime.datetime.fromtimestamp(ts, tz), "naive-utc": datetime.datetime(1970, 1, 1) + datetime.timedelta(seconds=ts)}
+            for kw, want in (({}, ("ok", c)), ({"last_counter": c}, ("used", None)), ({"last_counter": c + 5}, ("invalid", None)), ({"window": 0, "skew": 3600}, ("invalid", None))):
+                for fname, tm in forms.items():
+                    got = outcome(t, tok, tm, **kw)
+                    yield ("time-representation", {"op": "match-time-form", "key": key.hex(), "time": ts, "form": fname, "utc_offset_min": off_min, "kwds": kw}, got == want, got, want)
+    for _ in range(30):
+        k1, k2 = rng.randbytes(20), rng.randbytes(20)
+        ts = rng.randrange(10 ** 9, 2 * 10 ** 9)
+        for warm in ("generate", "match", "none"):
+            t = TOTP(key=k1, format="raw")
+            if warm == "generate":
+                t.generate(ts)
+            elif warm == "match":
+                outcome(t, "000000", ts)
+            t.key = k2
+            new_tok, old_tok = TOTP(key=k2, format="raw").generate(ts).token, TOTP(key=k1, format="raw").generate(ts).token
+            inp = {"op": "key-replaced", "first_use": warm, "old_key": k1.hex(), "new_key": k2.hex(), "time": ts}
+            got = (outcome(t, new_tok, ts)[0], outcome(t, old_tok, ts)[0] if old_tok != new_tok else "invalid", t.generate(ts).token == new_tok)
+            yield ("key-replaced-on-live-object", inp, got == ("ok", "invalid", True), got, ("ok", "invalid", True))
 
 
 def replay(ctx, inp):
